@@ -117,6 +117,11 @@ func isOnCurve(c elliptic.Curve, x, y *big.Int) bool {
 	if x == nil || y == nil {
 		return false
 	}
+	// coordinates are field elements: the curve back-ends silently drop the sign and reduce or
+	// truncate anything outside [0, p), which would let many encodings stand for one point
+	if fp := c.Params().P; x.Sign() < 0 || y.Sign() < 0 || x.Cmp(fp) >= 0 || y.Cmp(fp) >= 0 {
+		return false
+	}
 	return c.IsOnCurve(x, y)
 }
 
